@@ -364,3 +364,48 @@ func integralNumeric(n ast.Node) bool {
 	}
 	return integralNumeric(n.Next())
 }
+
+var _ = reg("C02_QuotedText", C02_QuotedText)
+
+var oddRunes = []string{"\u0085", "\u00a0", "\u2028", "\ufeff", "\ufffd", "\U000E0001", "\U0010FFFF", "\U0001F600", "\U000F0000", "\"", "\\", "'"}
+
+// C02_QuotedText: every other place where the printer quotes text - the
+// like_regex pattern, the datetime template, the starts with operand -
+// containing each control character (one symbolic byte), DEL and a sample of
+// characters that quoting functions treat specially.
+func C02_QuotedText() {
+	var c string
+	if nd.Choice(2) == 0 {
+		c = nd.StringN(1)
+		nd.Assume((c[0] >= 1 && c[0] < 0x20) || c[0] == 0x7f)
+	} else {
+		c = oddRunes[nd.Choice(len(oddRunes))]
+	}
+	text := "a" + c + "b"
+	root := ast.NewConst(ast.ConstRoot)
+	var node ast.Node
+	kind := nd.Choice(3)
+	switch kind {
+	case 0:
+		pattern := text
+		if c == "\\" {
+			pattern = "a\\\\b" // a regular expression for a literal backslash
+		}
+		flags := []string{"", "i", "q"}[nd.Choice(3)]
+		re, err := ast.NewRegex(root, pattern, flags)
+		if err != nil {
+			return
+		}
+		node = re
+	case 1:
+		node = ast.LinkNodes([]ast.Node{root, ast.NewUnary(ast.UnaryDateTime, ast.NewString(text))})
+	case 2:
+		node = ast.NewBinary(ast.BinaryStartsWith, root, ast.NewString(text))
+	}
+	tree, err := ast.New(true, kind != 1, node)
+	if err != nil {
+		return
+	}
+	tag := "C02/quoted-text/" + []string{"like_regex", "datetime-template", "starts-with"}[kind]
+	roundTrip(tag, path.New(tree))
+}
